@@ -105,3 +105,56 @@ class AppendOnlyLoop:
         for t in targets:
             fr.locals.pop(t, None)
         I.exec_block(st.orelse)
+
+
+class InvariantLoop:
+    """`for x in <sequence of symbolic length>: body` by an inductive invariant (unbounded).
+
+    spec supplies
+      inv(I, fr, i)        -> [(name, cond)]  invariant at the head of iteration i (0 <= i <= n), over the frame's
+                                              locals, the heap and the ghost state as they are when it is called
+      havoc(I, fr, i)                         replaces everything the body may modify (locals, heap, ghost) by
+                                              arbitrary values; i is the fresh iteration index
+      after_body(I, fr, i) -> [(name, cond)]  optional per-iteration clauses (what one arbitrary iteration did)
+    Obligations: invariant established (i = 0), preserved by one arbitrary iteration, per-iteration clauses.  After
+    the loop only invariant(n) is known.  Exceptions raised by the body leave the loop with the arbitrary-iteration
+    state (sound: they can happen in any iteration).  break is outside the rule."""
+
+    def __init__(self, spec):
+        self.spec = spec
+
+    def run_for(self, I, st, it):
+        from .interp import SSeq, BreakSig, ContinueSig
+        from .core import PathCut
+        if not isinstance(it, SSeq):
+            raise Outside("invariant loop rule: the iterable is not a symbolic sequence")
+        fr = I.frames[-1]
+        sp = self.spec
+        for (n, c) in sp.inv(I, fr, 0):
+            I.ctx.site_obligs.append(("loop.inv_established." + n, c, len(I.ctx.pc)))
+        i = I.ctx.fresh_int("loop_i")
+        I.ctx.assume(SBool(z3.And(i.t >= 0, i.t <= it.n.t)))
+        undo = sp.havoc(I, fr, i)
+        for (n, c) in sp.inv(I, fr, i):
+            I.ctx.assume(c)
+        if I.ctx.choose(2, "loop_exit") == 0:
+            I.ctx.assume_checked(SBool(i.t == it.n.t))
+            I.ctx.ghost["loop_exit_index"] = i
+            if undo is not None and I.ctx.branch(SBool(it.n.t == 0)):
+                undo()  # an empty sequence: no iteration ran, the state is exactly the state at loop entry
+            I.exec_block(st.orelse)
+            return
+        I.ctx.assume_checked(SBool(i.t < it.n.t))
+        I.assign(st.target, it.elem(i))
+        try:
+            I.exec_block(st.body)
+        except ContinueSig:
+            pass
+        except BreakSig:
+            raise Outside("invariant loop rule: break")
+        for (n, c) in sp.inv(I, fr, i + 1):
+            I.ctx.site_obligs.append(("loop.inv_preserved." + n, c, len(I.ctx.pc)))
+        if hasattr(sp, "after_body"):
+            for (n, c) in sp.after_body(I, fr, i):
+                I.ctx.site_obligs.append(("loop.iteration." + n, c, len(I.ctx.pc)))
+        raise PathCut()
